@@ -461,6 +461,9 @@ func vxC06Resolve() {
 	vx.Unwind(1 << 20)
 	vx.MaxSteps(400_000, "T: evaluation does not terminate")
 	res := d.processRewrites(h, q)
+	vx.Note(int(res.Reason))
+	vx.Note(res.CanonName)
+	vx.Note(len(res.IPList))
 	vx.MaxSteps(100_000_000, "")
 	vx.Assert(vx.Held(d.confMu) == 0, "table lock released")
 
@@ -506,6 +509,9 @@ func vxC06Terminates() {
 	vx.Unwind(1 << 20)
 	vx.MaxSteps(800_000, "T: evaluation does not terminate")
 	res := d.processRewrites(h, q)
+	vx.Note(int(res.Reason))
+	vx.Note(res.CanonName)
+	vx.Note(len(res.IPList))
 	vx.MaxSteps(100_000_000, "")
 	vxC06Sound(table, h, q, &res)
 	if vxC06Lookups == n+1 {
